@@ -241,6 +241,7 @@ def run(ctx):
                        'mechanism this turns every DBUS_COOKIE_SHA1 attempt '
                        'into ERROR)' % n.attr, nontrivial=False)
     close_is_final(ctx)
+    challenge_failures_answered(ctx)
     from .c04 import shared_line_framing
     shared_line_framing(ctx, 'C07.D7', 'C07.D7')
     from .c09 import per_instance_registries
@@ -253,6 +254,79 @@ def run(ctx):
     ctx.floor('C07.D4', 20)
     ctx.floor('C07.D5', 4)
     ctx.floor('C07.D6', 10)
+
+
+def _does_file_io(fn):
+    return any(isinstance(n, ast.Call) and isinstance(n.func, ast.Name) and
+               n.func.id == 'open' for n in ast.walk(fn)) or any(
+        isinstance(n, ast.Call) and isinstance(n.func, ast.Attribute) and
+        isinstance(n.func.value, ast.Name) and n.func.value.id == 'os' and
+        n.func.attr in ('stat', 'lstat', 'listdir', 'open')
+        for n in ast.walk(fn))
+
+
+def challenge_failures_answered(ctx):
+    """A mechanism that has to read files to answer a challenge (the cookie
+    keyring) can fail in an open-ended number of ways - missing file, missing
+    entry, bad permissions, malformed content.  Whatever happens the client
+    must ANSWER (ERROR, so that the server rejects and the next mechanism is
+    tried) or close: the lookup must sit under a catch-all handler that does
+    one of the two.  A handler narrowed to some exception types lets the
+    others escape from dataReceived: no ERROR, no next mechanism, no clean
+    close, although the server would have accepted a later mechanism."""
+    prog = ctx.prog
+    cls = prog.cls(K)
+    io_methods = {name for name, fi in cls.methods.items()
+                  if _does_file_io(fi.node)}
+    n = 0
+    for fi in cls.methods.values():
+        if not fi.node.name.startswith('_auth_'):
+            continue
+
+        def walk(node, tries):
+            nonlocal n
+            if isinstance(node, ast.Try):
+                for st in node.body:
+                    walk(st, tries + [node])
+                for h in node.handlers:
+                    for st in h.body:
+                        walk(st, tries)
+                for st in node.orelse + node.finalbody:
+                    walk(st, tries)
+                return
+            if isinstance(node, ast.Call) and \
+                    isinstance(node.func, ast.Attribute) and \
+                    isinstance(node.func.value, ast.Name) and \
+                    node.func.value.id == 'self' and \
+                    node.func.attr in io_methods:
+                n += 1
+                ok = False
+                for t in tries:
+                    for h in t.handlers:
+                        catch_all = h.type is None or (
+                            isinstance(h.type, ast.Name) and
+                            h.type.id in ('Exception', 'BaseException'))
+                        src = ast.unparse(ast.Module(body=h.body,
+                                                     type_ignores=[]))
+                        answers = ("sendAuthMessage(b'ERROR" in src or
+                                   'DBusAuthenticationFailed' in src)
+                        if catch_all and answers:
+                            ok = True
+                ctx.ob('C07.D4', fi.qualname,
+                       'challenge-failure-answered:%s' % node.func.attr, ok,
+                       'the keyring lookup %s() can fail in ways no finite '
+                       'list of exception types covers; it is not under a '
+                       'catch-all handler that answers ERROR (or closes), so '
+                       'e.g. a missing cookie id raises out of dataReceived '
+                       'and the client neither tries its next mechanism nor '
+                       'closes in an orderly way' % node.func.attr)
+            for ch in ast.iter_child_nodes(node):
+                walk(ch, tries)
+        walk(fi.node, [])
+    if n == 0 and io_methods:
+        ctx.ob('C07.D4', K, 'challenge-failure-answered', False,
+               'no command handler calls the file-reading helper(s) %s any '
+               'more' % sorted(io_methods))
 
 
 def close_is_final(ctx):
